@@ -645,6 +645,91 @@ func (e *Engine) wgWait(g *Gor, p *Value) {
 	e.acquire(g, &w.vc)
 }
 
+// condState: sync.Cond. Wait is ONE scheduling point (as for the native replay, where the unlock, the
+// wait and the re-lock happen inside the library): the caller yields, releases L, parks until a
+// Signal/Broadcast issued after that picks it, and takes L again.
+type condState struct {
+	waiters []*bool
+	vc      vclock
+}
+
+func (e *Engine) condOf(p *Value) *condState {
+	c := e.conds[p]
+	if c == nil {
+		c = &condState{}
+		e.conds[p] = c
+	}
+	return c
+}
+
+// condLocker returns release/free/take operations for the Locker stored in a Cond.
+func (e *Engine) condLocker(fr *frame, g *Gor, c *Value) (release func(), free func() bool, take func()) {
+	st, ok := (*c).(Struct)
+	if !ok || len(st) < 2 {
+		panic(engineErr("sync.Cond: unexpected layout"))
+	}
+	itf, ok := st[1].(Iface)
+	if !ok || itf.T == nil {
+		e.rtPanic("invalid memory address or nil pointer dereference (sync.Cond without Locker)")
+	}
+	switch itf.T.String() {
+	case "*sync.Mutex":
+		m := e.mutexOf(itf.V.(*Value))
+		return func() {
+				if !m.held {
+					e.fatal("sync: unlock of unlocked mutex")
+				}
+				e.release(g, &m.vc)
+				m.held = false
+			}, func() bool { return !m.held }, func() {
+				m.held = true
+				e.acquire(g, &m.vc)
+			}
+	case "*sync.RWMutex":
+		m := e.rwOf(itf.V.(*Value))
+		return func() {
+				if !m.writer {
+					e.fatal("sync: Unlock of unlocked RWMutex")
+				}
+				e.release(g, &m.vc)
+				m.writer = false
+			}, func() bool { return !m.writer && m.readers == 0 }, func() {
+				m.writer = true
+				e.acquire(g, &m.vc)
+				e.acquire(g, &m.rvc)
+			}
+	}
+	panic(engineErr("sync.Cond over a %s is not modelled", itf.T))
+}
+
+func (e *Engine) condWait(fr *frame, p *Value) {
+	g := fr.g
+	c := e.condOf(p)
+	release, free, take := e.condLocker(fr, g, p)
+	e.yield(g, "Cond.Wait")
+	released := new(bool)
+	c.waiters = append(c.waiters, released)
+	release()
+	e.blockOn(g, func() bool { return *released && free() }, "Cond.Wait")
+	e.acquire(g, &c.vc)
+	take()
+}
+
+func (e *Engine) condSignal(fr *frame, p *Value, all bool) {
+	g := fr.g
+	c := e.condOf(p)
+	e.yield(g, "Cond.Signal")
+	e.release(g, &c.vc)
+	n := len(c.waiters)
+	if !all && n > 1 {
+		n = 1
+	}
+	for _, r := range c.waiters[:n] {
+		*r = true
+	}
+	c.waiters = c.waiters[n:]
+}
+
 // fatal models an unrecoverable runtime throw.
 func (e *Engine) fatal(msg string) {
 	e.endPath(pathResult{kind: "panic", msg: "fatal error: " + msg})
